@@ -5,6 +5,8 @@
 mod debugger {
     include!(concat!(env!("OUT_DIR"), "/debugger_rebound.rs"));
 }
+mod cli;
+mod refmodel;
 mod shim;
 
 use debugger::{DebuggerContext, DebuggerError, DebuggerEvent};
@@ -31,30 +33,46 @@ const SCENARIOS: &[Scenario] = &[
     // request the old parse still ends in Ok
     Scenario { name: "single-hit", grammar: "a = { \"x\" } r = _{ a ~ \"y\"? }", input: "x", rule: "r", breakpoints: &["a"] },
     Scenario { name: "hit-in-repetition", grammar: "a = { \"x\" } r = { a ~ a* }", input: "xx", rule: "r", breakpoints: &["a"] },
+    // breakpoints on built-in rules and on a silent rule; implicit WHITESPACE entries
+    Scenario { name: "builtin-breakpoints", grammar: "a = { \"x\" } r = { a ~ ANY ~ a? ~ EOI }", input: "xy", rule: "r", breakpoints: &["EOI", "ANY"] },
+    Scenario { name: "silent-and-whitespace", grammar: "WHITESPACE = _{ \" \" } a = _{ \"x\" } r = { a ~ a }", input: "x x", rule: "r", breakpoints: &["a", "WHITESPACE"] },
+    Scenario { name: "stack-builtins", grammar: "r = { PUSH(ANY) ~ PEEK ~ POP }", input: "xxx", rule: "r", breakpoints: &["PEEK", "POP", "ANY"] },
     Scenario { name: "multibyte", grammar: "a = { \"é\" } r = { a ~ \"\\n\" ~ a ~ a }", input: "é\néé", rule: "r", breakpoints: &["a"] },
 ];
 
-/// The sequential truth: the listener trace of a plain VM run, filtered by the breakpoint set,
-/// followed by Eof or the plain VM error's text.
-fn expected(sc: &Scenario, bps: &[&str]) -> Vec<DebuggerEvent> {
+/// The entries of the parse, from the reference model (not from the VM's listener).
+fn reference_trace(sc: &Scenario) -> (Vec<(String, usize)>, bool) {
+    let (_, ast) = pest_meta::parse_and_optimize(sc.grammar).expect("scenario grammar");
+    refmodel::entries(&ast, sc.rule, sc.input)
+}
+
+/// What a listener attached to a plain VM run is told (compared with the reference in main()).
+fn vm_listener_trace(sc: &Scenario) -> Vec<(String, usize)> {
     let (_, ast) = pest_meta::parse_and_optimize(sc.grammar).expect("scenario grammar");
     let trace = std::sync::Arc::new(std::sync::Mutex::new(vec![]));
     let t2 = trace.clone();
     let vm = pest_vm::Vm::new_with_listener(
-        ast.clone(),
+        ast,
         Box::new(move |rule, pos| {
             t2.lock().unwrap().push((rule, pos.pos()));
             false
         }),
     );
-    let res = vm.parse(sc.rule, sc.input).map(|_| ()).map_err(|e| e.to_string());
-    let mut ev: Vec<DebuggerEvent> = trace.lock().unwrap().iter().filter(|(r, _)| bps.contains(&r.as_str())).map(|(r, p)| DebuggerEvent::Breakpoint(r.clone(), *p)).collect();
-    // the plain VM (no listener) gives the reference error text
-    let plain = pest_vm::Vm::new(ast);
-    match (res, plain.parse(sc.rule, sc.input)) {
-        (Ok(()), _) => ev.push(DebuggerEvent::Eof),
-        (Err(_), Err(e)) => ev.push(DebuggerEvent::Error(e.to_string())),
-        (Err(e), Ok(_)) => ev.push(DebuggerEvent::Error(e)),
+    let _ = vm.parse(sc.rule, sc.input);
+    let t = trace.lock().unwrap().clone();
+    t
+}
+
+/// The sequential truth: the reference entries of the parse, filtered by the breakpoint set,
+/// followed by Eof or the plain VM error's text.
+fn expected(sc: &Scenario, bps: &[&str]) -> Vec<DebuggerEvent> {
+    let (_, ast) = pest_meta::parse_and_optimize(sc.grammar).expect("scenario grammar");
+    let (trace, _) = reference_trace(sc);
+    let mut ev: Vec<DebuggerEvent> = trace.iter().filter(|(r, _)| bps.contains(&r.as_str())).map(|(r, p)| DebuggerEvent::Breakpoint(r.clone(), *p)).collect();
+    // the plain VM (no listener) gives the end of the stream: Eof or its error's text
+    match pest_vm::Vm::new(ast).parse(sc.rule, sc.input) {
+        Ok(_) => ev.push(DebuggerEvent::Eof),
+        Err(e) => ev.push(DebuggerEvent::Error(e.to_string())),
     }
     ev
 }
@@ -85,20 +103,11 @@ fn edits_of(script_name: &str) -> Vec<Edit> {
 fn expected_with_edits(sc: &Scenario, edits: &[Edit]) -> Vec<DebuggerEvent> {
     let (_, ast) = pest_meta::parse_and_optimize(sc.grammar).expect("scenario grammar");
     let all_rules: Vec<String> = ast.iter().map(|r| r.name.clone()).collect();
-    let trace = std::sync::Arc::new(std::sync::Mutex::new(vec![]));
-    let t2 = trace.clone();
-    let vm = pest_vm::Vm::new_with_listener(
-        ast.clone(),
-        Box::new(move |rule, pos| {
-            t2.lock().unwrap().push((rule, pos.pos()));
-            false
-        }),
-    );
-    let _ = vm.parse(sc.rule, sc.input);
+    let (trace, _) = reference_trace(sc);
     let mut set: Vec<String> = sc.breakpoints.iter().map(|s| s.to_string()).collect();
     let mut ev = vec![];
     let mut edited = false;
-    for (r, p) in trace.lock().unwrap().iter() {
+    for (r, p) in trace.iter() {
         if set.contains(r) {
             ev.push(DebuggerEvent::Breakpoint(r.clone(), *p));
             if !edited {
@@ -393,6 +402,40 @@ fn main() {
     let known = verdict::Known::load();
     if let Some(p) = &cfg.replay {
         let case = verdict::load_replay(p);
+        let script = case["script"].as_str().unwrap_or("");
+        if script == "sequential" || script == "cli" {
+            let sc = SCENARIOS.iter().find(|s| Some(s.name) == case["scenario"].as_str()).expect("scenario");
+            let mut st = Stats::new();
+            if script == "sequential" {
+                let (want, _) = reference_trace(sc);
+                let got = vm_listener_trace(sc);
+                println!("listener was told {got:?}\nreference entries {want:?}");
+                if got != want {
+                    st.violation(json!({}));
+                }
+            } else {
+                let bin = std::env::var_os("VERIF_CLI").expect("VERIF_CLI");
+                let dir = std::path::PathBuf::from(std::env::var("CARGO_TARGET_DIR").unwrap_or_else(|_| "/verif/.target".into())).join(format!("c17-cli-{}", std::process::id()));
+                std::fs::create_dir_all(&dir).expect("scratch dir");
+                let ev = expected(sc, sc.breakpoints);
+                let hits: Vec<(String, usize)> = ev.iter().filter_map(|e| if let DebuggerEvent::Breakpoint(r, p) = e { Some((r.clone(), *p)) } else { None }).collect();
+                let end = match ev.last() {
+                    Some(DebuggerEvent::Error(t)) => Some(t.clone()),
+                    _ => None,
+                };
+                cli::check(&bin, &dir, sc.name, sc.grammar, sc.input, sc.rule, sc.breakpoints, &hits, end.as_deref(), &mut st);
+                let _ = std::fs::remove_dir_all(&dir);
+                for v in &st.violations {
+                    println!("{v:#}");
+                }
+            }
+            if st.get("violations") > 0 {
+                println!("VIOLATION property=C17 replay={p}");
+                std::process::exit(1)
+            }
+            println!("replay: property holds on this case");
+            std::process::exit(0)
+        }
         let r = run_child(case["script"].as_str().unwrap(), case["scenario"].as_str().unwrap(), case["channel_capacity"].as_u64().unwrap() as usize, case["preemption_bound"].as_u64().map(|b| b as usize), 600);
         println!("replay: executions {} completed {} failure {:?} blocked [{}]", r.executions, r.completed, r.failure, r.blocked);
         if r.failure.is_some() {
@@ -422,6 +465,35 @@ fn main() {
         }
     }
     let mut stats = Stats::new();
+    // sequential part: what the VM announces to a listener must be exactly the entries of the parse
+    // (every rule entry, built-ins and implicit WHITESPACE/COMMENT attempts included) per the reference
+    for sc in SCENARIOS {
+        let (want, _) = reference_trace(sc);
+        let got = vm_listener_trace(sc);
+        stats.inc("evaluations");
+        stats.inc("listener_traces_compared");
+        if got != want {
+            stats.violation_class("vm-listener-trace", json!({"kind": "vm-listener-trace-differs-from-the-entries-of-the-parse", "scenario": sc.name, "grammar": sc.grammar, "input": sc.input, "rule": sc.rule, "listener_was_told": got, "reference_entries": want, "script": "sequential", "channel_capacity": 1, "preemption_bound": 0}));
+        }
+    }
+    // the command-line front end: every session form must print the same stream
+    match std::env::var_os("VERIF_CLI") {
+        None => stats.failures.push("VERIF_CLI (path of the built pest_debugger binary) is not set; run through /verif/check".into()),
+        Some(bin) => {
+            let dir = std::path::PathBuf::from(std::env::var("CARGO_TARGET_DIR").unwrap_or_else(|_| "/verif/.target".into())).join(format!("c17-cli-{}", std::process::id()));
+            std::fs::create_dir_all(&dir).expect("scratch dir");
+            for sc in SCENARIOS {
+                let ev = expected(sc, sc.breakpoints);
+                let hits: Vec<(String, usize)> = ev.iter().filter_map(|e| if let DebuggerEvent::Breakpoint(r, p) = e { Some((r.clone(), *p)) } else { None }).collect();
+                let end = match ev.last() {
+                    Some(DebuggerEvent::Error(t)) => Some(t.clone()),
+                    _ => None,
+                };
+                cli::check(&bin, &dir, sc.name, sc.grammar, sc.input, sc.rule, sc.breakpoints, &hits, end.as_deref(), &mut stats);
+            }
+            let _ = std::fs::remove_dir_all(&dir);
+        }
+    }
     let next = AtomicUsize::new(0);
     let results: Vec<(usize, RunResult)> = std::thread::scope(|scp| {
         let hs: Vec<_> = (0..cfg.jobs)
@@ -478,7 +550,7 @@ fn main() {
     cov.insert("states".into(), json!(states));
     cov.insert("transitions".into(), json!(states));
     cov.insert("traces_validated_against_impl".into(), json!(states));
-    cov.insert("rule".into(), json!("loom (DPOR, iterated preemption bound) on the real debugger/src/lib.rs rebound to loom primitives by build.rs: scripts S1 (run, receive/continue to the end), S2 (breakpoints edited while stopped), S3 (re-run after the first event), S4 (re-run immediately, precondition enforced exactly), S5 (run to the end, re-run) x 5 grammar/input/breakpoint scenarios (two hits, nested hits, none, failing parse, multi-byte input) x channel capacity 1 (as the CLI) and 2 (S3/S4). In every execution: delivered events == sequential listener trace filtered by the breakpoint set + Eof / the plain VM error text; try_recv between a breakpoint and its cont is empty; every run() returns and all threads terminate (loom reports blocked-forever threads). states = executions (complete interleavings) explored; each is a run of the real code"));
+    cov.insert("rule".into(), json!("loom (DPOR, iterated preemption bound) on the real debugger/src/lib.rs rebound to loom primitives by build.rs: scripts S1 (run, receive/continue to the end), S2 (breakpoints edited while stopped), S3 (re-run after the first event), S4 (re-run immediately, precondition enforced exactly), S5 (run to the end, re-run) x 10 grammar/input/breakpoint scenarios (two hits, nested hits, none, failing parse, single hit, hit in a repetition, breakpoints on built-ins / silent rules / implicit WHITESPACE / stack built-ins, multi-byte input) x channel capacity 1 (as the CLI) and 2 (S3/S4). In every execution: delivered events == the reference entries of the parse (S_doc on the optimized rules, every rule entry incl. built-ins; the VM's own listener trace is compared with it sequentially) filtered by the breakpoint set + Eof / the plain VM error text; try_recv between a breakpoint and its cont is empty; every run() returns and all threads terminate (loom reports blocked-forever threads). states = executions (complete interleavings) explored; each is a run of the real code"));
     let v: Value = json!(bounds.iter().map(|b| b.map(|x| x.to_string()).unwrap_or("unbounded".into())).collect::<Vec<_>>());
     cov.insert("preemption_bounds".into(), v);
     verdict::conclude(verdict::Report {
